@@ -75,6 +75,99 @@ theorem chargeable_attempts_irrelevant (feeOn : Bool) (s : St) (t : Txn) (w w' :
     unfold plan; cases t.typ <;> rfl
   rw [this]
 
+/-! ### histories: only the writes of successful calls ever reach contract storage
+`keptWrites` is the specification: the writes of a contract call that returned without error AND whose transaction
+was applied with status `success`; everything else (chargeable failure, internal failure, rejected transaction,
+send, data) contributes nothing. -/
+
+def okWrites : CResult → List Write
+  | .ok ws _ _ => ws
+  | _ => []
+
+def keptWrites (feeOn : Bool) (s : St) (t : Txn) (r : CResult) : List Write :=
+  if (step feeOn s t r).2 = .success ∧ t.typ = .sc then okWrites r else []
+
+/-- **step_store**: one transaction changes contract storage by exactly `keptWrites`. -/
+theorem step_store (feeOn : Bool) (s : St) (t : Txn) (r : CResult) :
+    (step feeOn s t r).1.store = applyWrites s.store (keptWrites feeOn s t r) := by
+  unfold keptWrites
+  rw [step_eq]
+  unfold plan
+  by_cases h1 : t.value > maxTokenSupply
+  · simp [h1, finish, applyWrites]
+  · by_cases h2 : (get s.accts t.sender).nonce + 1 ≠ t.nonce
+    · simp [h1, h2, finish, applyWrites]
+    · simp only [h1, h2, if_false]
+      cases ht : t.typ with
+      | invalid => simp [finish, applyWrites]
+      | data =>
+        simp only [finish]
+        rcases opt_cases (settle feeOn s.accts t [] []) with hs | ⟨a, hs⟩ <;> simp [hs, applyWrites]
+      | send =>
+        simp only
+        split
+        · simp [finish, applyWrites]
+        · split
+          · simp [finish, applyWrites]
+          · split
+            · simp [finish, applyWrites]
+            · simp only [finish]
+              rcases opt_cases (settle feeOn s.accts t [⟨t.sender, t.to, t.value, t.toCanon, t.toSameLeaf⟩] []) with hs | ⟨a, hs⟩ <;> simp [hs, applyWrites]
+      | sc =>
+        cases r with
+        | internal => simp [finish, applyWrites]
+        | chargeable w tr sg =>
+          simp only [finish]
+          rcases opt_cases (settle feeOn s.accts t [] []) with hs | ⟨a, hs⟩ <;> simp [hs, applyWrites]
+        | ok ws tr sg =>
+          simp only [finish]
+          rcases opt_cases (settle feeOn s.accts t tr sg) with hs | ⟨a, hs⟩ <;> simp [hs, applyWrites, okWrites]
+
+
+def keptHistory (feeOn : Bool) (s : St) : List (Txn × CResult) → List Write
+  | [] => []
+  | (t, r) :: rest => keptWrites feeOn s t r ++ keptHistory feeOn (step feeOn s t r).1 rest
+
+theorem run_store (feeOn : Bool) (h : List (Txn × CResult)) : ∀ s : St,
+    (run feeOn s h).store = applyWrites s.store (keptHistory feeOn s h) := by
+  induction h with
+  | nil => intro s; rfl
+  | cons x rest ih =>
+    intro s
+    obtain ⟨t, r⟩ := x
+    show (run feeOn (step feeOn s t r).1 rest).store = _
+    rw [ih, step_store]
+    show _ = applyWrites s.store (keptWrites feeOn s t r ++ keptHistory feeOn (step feeOn s t r).1 rest)
+    rw [applyWrites_append]
+
+theorem keptHistory_nil_of_no_ok (feeOn : Bool) (h : List (Txn × CResult)) (hno : ∀ x ∈ h, okWrites x.2 = []) :
+    ∀ s : St, keptHistory feeOn s h = [] := by
+  induction h with
+  | nil => intro s; rfl
+  | cons x rest ih =>
+    intro s
+    obtain ⟨t, r⟩ := x
+    have h1 : okWrites r = [] := hno (t, r) List.mem_cons_self
+    have h2 := ih (fun y hy => hno y (List.mem_cons_of_mem _ hy)) (step feeOn s t r).1
+    show keptWrites feeOn s t r ++ keptHistory feeOn (step feeOn s t r).1 rest = []
+    rw [h2, List.append_nil]
+    unfold keptWrites
+    split
+    · exact h1
+    · rfl
+
+theorem failing_history_store_unchanged (feeOn : Bool) (s : St) (h : List (Txn × CResult))
+    (hno : ∀ x ∈ h, okWrites x.2 = []) : (run feeOn s h).store = s.store := by
+  rw [run_store, keptHistory_nil_of_no_ok feeOn h hno]; rfl
+
+def exS2' : St := { accts := [(3, ⟨1000, 4⟩), (7, ⟨5000, 0⟩)], store := [(1, 11)] }
+def exT2a : Txn := { sender := 3, to := 7, toValid := true, value := 0, fee := 10, nonce := 5, typ := .sc }
+def exT2b : Txn := { exT2a with nonce := 6 }
+def exT2c : Txn := { exT2a with nonce := 7 }
+-- non-vacuity: a failing call between two successful ones leaves no trace; the two successful writes are kept in order
+example : (run true exS2' [(exT2a, .ok [.put 2 22] [] []), (exT2b, .chargeable [.put 2 99, .del 1] [] []),
+    (exT2c, .ok [.put 5 55] [] [])]).store = [(1, 11), (2, 22), (5, 55)] := by decide
+
 -- non-vacuity: a failing call that had attempted a write and a transfer is applied with status `failed`
 def exS2 : St := { accts := [(3, ⟨1000, 4⟩), (7, ⟨5000, 0⟩)], store := [(1, 11)] }
 def exT2 : Txn := { sender := 3, to := 7, toValid := true, value := 100, fee := 10, nonce := 5, typ := .sc }
